@@ -22,9 +22,14 @@ OTHER = {"ios": "nxos", "nxos": "ios"}
 
 def gen_body(rnd, ca, plat):
     lines, abstract = [], []
-    numbered = rnd.random() < 0.4
+    numbering = rnd.choice(["none", "none", "ascending", "ascending", "any"])
     for i in range(rnd.randint(1, 6)):
-        pre = f"{(i + 1) * 10} " if numbered else ""
+        if numbering == "any":
+            # numbers not in text order, repeated, and lines without a number between numbered ones: conversion
+            # keeps the order of the TEXT
+            pre = rnd.choice(["", "", "10 ", "20 ", "30 ", "5 ", f"{rnd.randint(1, 99)} "])
+        else:
+            pre = f"{(i + 1) * 10} " if numbering == "ascending" else ""
         if rnd.random() < 0.2:
             lines.append(pre + "remark " + rnd.choice(["text", "= B1", "= B2, x"]))
             abstract.append(None)
